@@ -115,7 +115,7 @@ func c16CharsetPairs(c *core.Ctx) {
 // header-size table changing from file to file) are observed through the
 // streamer: multi-file histories, compared with the model including labels.
 func c16EndToEnd(c *core.Ctx) {
-	nh := c.N(60, 4000)
+	nh := c.N(160, 4000)
 	for idx := 0; idx < nh; idx++ {
 		if !c.Mine(idx) {
 			continue
